@@ -146,6 +146,9 @@ var progSpecs = []progSpec{
 	{"component_definition", "", "NewHolder", "holder_NewHolder", ""},
 	{"component_definition", "", "NewEmbedHolder", "holder_NewEmbedHolder", ""},
 	{"component_definition", "Meta", "GetAllProperties", "meta_GetAllProperties", ""},
+	{"util/reflectx", "", "Id", "reflectx_Id", ""},
+	{"util/reflectx", "", "TypeId", "reflectx_TypeId", ""},
+	{"configure/loader", "FileLoader", "Order", "loader_File_Order", ""},
 	{"configure", "", "NewConfigure", "cfg_NewConfigure", ""},
 	{"configure", "", "Default", "cfg_Default", ""},
 	{"configure", "configure", "AddLoaders", "cfg_AddLoaders", ""},
